@@ -394,7 +394,7 @@ def w7_rebuild_after_growth(prog):
     return r
 
 
-@rule('W5', props=['C03', 'C04', 'C05', 'C09', 'C10', 'C16', 'C06'], floor={'all': 30, 'default': 23}, configs=('all', 'default'))
+@rule('W5', props=['C03', 'C04', 'C05', 'C09', 'C10', 'C16', 'C06', 'C11'], floor={'all': 30, 'default': 23}, configs=('all', 'default'))
 def w5_length_provenance(prog):
     """Every Vec/slice rebuilt from column 0 uses, as its length, the step's own length parameter that
     belongs to that column list (pairing learned from call sites: `X.components` <-> `X.length`), its
@@ -647,6 +647,36 @@ def w8_copied_column_holds_the_rows(prog):
                                        'the column pushed for a present component is a fresh Vec (%s) rather than a copy of the source column: it holds no rows while the archetype length counts the source\'s rows' % how, tag=fn.name)
         if found:
             r.inst(key, tag=fn.name)
+    return r
+
+
+@rule('W11', props=['C04', 'C10', 'C05', 'C01', 'C17'], floor={'all': 15, 'default': 14}, configs=('all', 'default'))
+def w11_total_walks_reach_the_tail(prog):
+    """A walk step whose result is `()` has no verdict to return early with: every returning path of such a step
+    (push/extend/reserve/clear/shrink/free/clone_from/debug-pointer walks, ...) recurses into the tail of the registry,
+    unless it is the terminal cell of a search (index marker `Contained`: the component was found, nothing to the right
+    matters). An early `return` — "the source is empty, nothing to do" — leaves the columns of all later components
+    (and of this one) untouched while the caller goes on to publish the new length."""
+    r = Result()
+    for fn, imp in walk_fns(prog):
+        out = fn.d.get('output')
+        if not (out is None or (out.get('k') == 'tuple' and not out.get('e'))):
+            continue
+        if is_terminal_contained(imp):
+            continue
+        it, paths = traces(prog, fn)
+        key = fn_key(fn, imp)
+        rets = [p for p in paths if p.ended == 'return']
+        if not rets:
+            continue
+        r.inst(key, tag=fn.name)
+        for p in rets:
+            # a checked look at the column list that found it exhausted (`components.get(0)` is None) ends a walk
+            # over a possibly partial list (try_free_components)
+            exhausted = any(c[0] == 'switch' and isinstance(c[1], tuple) and c[1][0] == 'discr' and isinstance(c[1][1], tuple) and c[1][1][0] == 'optelem' for c in p.conds)
+            if not any(e['k'] == 'tail' for e in p.events) and not exhausted:
+                r.viol('W11', key + '/returns-without-tail', fn.loc(), 'a path through this step returns without recursing into the tail of the registry: the columns of the remaining components are skipped', tag=fn.name)
+                break
     return r
 
 
